@@ -541,7 +541,9 @@ public:
           // Else, for tainted_volatile, this will allow a
           // time-of-check-time-of-use attack
           auto val_copy = std::make_unique<T_Deref>();
-          *val_copy = *val;
+          // Read the pointee with the width and encoding of the sandbox ABI
+          auto val_tainted = tainted<T, T_Sbx>::internal_factory(val);
+          *val_copy = (*val_tainted).get_raw_value();
           return verifier(std::move(val_copy));
         }
       }
@@ -579,7 +581,9 @@ private:
   // Template needed to ensure that function isn't instantiated for unsupported
   // types like function pointers which causes compile errors...
   template<typename T2 = T>
-  inline const void* verify_range_helper(std::size_t count) const
+  inline const void* verify_range_helper(
+    std::size_t count,
+    std::size_t el_size = sizeof(T_CopyAndVerifyRangeEl)) const
   {
     static_assert(std::is_pointer_v<T>);
     static_assert(detail::is_fundamental_or_enum_v<T_CopyAndVerifyRangeEl>);
@@ -594,12 +598,11 @@ private:
     }
 
     detail::dynamic_check(
-      count <=
-        std::numeric_limits<size_t>::max() / sizeof(T_CopyAndVerifyRangeEl),
+      count <= std::numeric_limits<size_t>::max() / el_size,
       "Called copy_and_verify_range/copy_and_verify_string with too large a "
       "count");
-    detail::check_range_doesnt_cross_app_sbx_boundary<T_Sbx>(
-      start, count * sizeof(T_CopyAndVerifyRangeEl));
+    detail::check_range_doesnt_cross_app_sbx_boundary<T_Sbx>(start,
+                                                             count * el_size);
 
     return start;
   }
@@ -608,7 +611,9 @@ private:
   inline std::unique_ptr<T_CopyAndVerifyRangeEl[]> copy_and_verify_range_helper(
     std::size_t count) const
   {
-    const void* start = verify_range_helper(count);
+    // The elements are read with the width they have in the sandbox ABI
+    using T_ElVol = tainted_volatile<T_CopyAndVerifyRangeEl, T_Sbx>;
+    const void* start = verify_range_helper(count, sizeof(T_ElVol));
     if (start == nullptr) {
       return nullptr;
     }
@@ -616,9 +621,7 @@ private:
     auto target = std::make_unique<T_CopyAndVerifyRangeEl[]>(count);
 
     for (size_t i = 0; i < count; i++) {
-      auto p_src_i_tainted = &(impl()[i]);
-      auto p_src_i = p_src_i_tainted.get_raw_value();
-      detail::convert_type_fundamental_or_array(target[i], *p_src_i);
+      target[i] = impl()[i].get_raw_value();
     }
 
     return target;
